@@ -21,6 +21,8 @@ def targets(tier):
 	for rn, rt in (('sigarray', SigArrT('u2')), ('sigarray_i4', SigArrT('i4')), ('seq', SeqOf(TSpec(TArr(CTYPES['uint16_t'], 'ndarray'))))):
 		for on, ot in (('noout', Const(None)), ('out', F32Arr()), ('out_f8', NdArr('i8'))):
 			t.append((PM + 'jaccarddist_array', f'{rn},{on}', {'query': NdArr('u2'), 'refs': rt, 'out': ot}))
+	t.append((PM + 'jaccarddist_array', 'wide-query', {'query': NdArr('u8'), 'refs': SigArrT('u2'), 'out': Const(None)}))
+	t.append((PM + 'jaccarddist_array', 'wide-query-seq', {'query': NdArr('u8'), 'refs': SeqOf(TSpec(TArr(CTYPES['uint16_t'], 'ndarray'))), 'out': Const(None)}))
 	t.append((PM + 'jaccarddist_array', 'badquery', {'query': NdArr('u1'), 'refs': SigArrT('u2'), 'out': Const(None)}))
 	rm = bulkc.register_matrix
 	rm.lib = _bulk.BULK_LIB
